@@ -249,7 +249,12 @@ def run(P, rep, tier):
                        'Acceptance of valid constructs: function(), declspec(), the additive/call/assignment/indirection typing checks and the constant-expression evaluators are interpreted on '
                        'concrete finite descriptions (specifier flags and declaration histories, token lists of specifiers, witness operand types, witness expression trees) that C11 allows; '
                        'none may reach a diagnostic. '
-                       'Not decided: termination, acceptance of all byte strings, recursion depth.')
+                       'The assertion on the code generator\'s stack counter is proved by re-issuing the stack-accounting obligations of C20 (R13.17). '
+                       'End-of-translation-unit checks (a diagnostic whose only condition is that a stack-like global is non-empty) must not be reachable from the loop that pushes onto that '
+                       'global (R13.18, call graph). Values of the input that index the compiler\'s own arrays are followed through out-parameters and loop counters by the guard-fact analysis and '
+                       'must be bounded on both sides (R13.19). Direct self-calls must not re-enter with the same input (R13.20: identical parameters after an effect-free prefix; an unexamined '
+                       'fresh object under the kind guard that selected the arm). '
+                       'Not decided: termination in general (loops, indirect recursion), acceptance of all byte strings, recursion depth.')
     rep.assumptions += ['calloc/malloc/open_memstream succeed', 'every Node that reaches the code generator was typed by add_type and is not modified afterwards (typing relation injected into codegen.c)',
                         'a forced merge of analysis states (more than %d disjuncts, loop widening) makes disagreeing facts unknown, never may-be-NULL' % L.CAP, 'a callee does not reset an object field the caller has just tested (no alias kills); globals are killed only by direct writers',
                         'R13.9: the successor of the TK_EOF token is NULL; out-parameters (Token **rest) are not aliased; ' + '; '.join('%s() %s' % (f, why) for f, (m, why) in sorted(MARKER_MODELS.items()))
@@ -264,6 +269,12 @@ def run(P, rep, tier):
                         'R13.13-R13.16: the validity of each enumerated construct is stated from C11 (6.2.2, 6.5.x, 6.6, 6.7.x), independently of the code; functions outside the interpreted one and its '
                         'private helpers are opaque (declarator, assign, cast, const_expr, find_func, find_tag, get_struct_member are replaced by the contract "consumes its tokens, returns the described object"); '
                         'add_type leaves a node that already has a type alone',
+                        'R13.17: the assumptions of C20 (children satisfy the contract, typing relation of add_type, stack effects per Intel SDM); x87-only imbalances are C20\'s, not re-issued',
+                        'R13.18: every call inside the loop that contains the push can run while the global is non-empty (flow-insensitive over the loop body and the call graph below it)',
+                        'R13.19: only values obtained in the function itself are judged (results of input-valued functions, literal-value fields, out-parameters a callee fills on every return); '
+                        'a comparison with something that is not itself an unbounded value of the input counts as an upper limit (whether it is the right limit is not decided); '
+                        '++ keeps a lower bound, -- an upper bound (no overflow)',
+                        'R13.20: a function in W.pure has no effect; a local all of whose definitions are call results is no part of the parameter',
                         'facts established in other functions, each confirmed by reading: ' + '; '.join('%s:%s %s (%s)' % (k[0], k[1], k[2], v) for k, v in sorted(ASSUMED.items()))]
     W = _world(P)
     engs = L.solve(W)
@@ -1949,7 +1960,7 @@ def r1317(P, W, rep, tier):
         return
     rep.rule('R13.17', 'the assertion on the code generator\'s stack counter (`depth` is 0 again at the end of every function) cannot fail: on every path of every gen_expr / gen_stmt / '
                        'gen_addr arm `depth` moves exactly with the emitted %rsp motion, every arm is %rsp-neutral given the same of its children, and everything pushed for a call '
-                       '(arguments, padding for 16-byte aligned arguments, alignment of the call) is released after it for every argument class and stack parity (obligations of C20, re-issued)', floor=250)
+                       '(arguments, padding for 16-byte aligned arguments, alignment of the call) is released after it for every argument class and stack parity (obligations of C20, re-issued)', floor=150)
     from ..report import Report, reissue
     from ..interp import Unsupported
     from . import c20
@@ -2184,7 +2195,7 @@ def r1320(W, engs, rep):
     """non-progress recursion: the compiler answers with a stack overflow (SIGSEGV) instead of a diagnostic"""
     rep.rule('R13.20', 'a direct self-call of a front-end function is not a re-entry with the same input: it does not hand every parameter on unchanged after a prefix that only tests '
                        '(such a call repeats itself until the stack overflows), and where the recursing arm was selected by the kind of what a parameter points to and the argument is a '
-                       'freshly computed object (every definition of that local is a call result; it is no part of the parameter), the function has examined the new object before the call (that kind is excluded, or the object is at least tested)', floor=60)
+                       'freshly computed object (every definition of that local is a call result; it is no part of the parameter), the function has examined the new object before the call (that kind is excluded, or the object is at least tested)', floor=30)
     for (un, f), e in sorted(engs.items()):
         if un == 'codegen.c':
             continue
